@@ -175,11 +175,7 @@ impl MT940 {
 
     /// Get first two characters of a currency code
     fn get_currency_prefix(currency: &str) -> &str {
-        if currency.len() >= 2 {
-            &currency[0..2]
-        } else {
-            currency
-        }
+        currency_prefix(currency)
     }
 
     // ========================================================================
